@@ -159,3 +159,25 @@ func (m *iprpcTracer) AfterTx(s *Sim, r *TxRes) {
 func (m *iprpcTracer) AfterBlock(s *Sim, b *BlockRes) {
 	m.dump(s, fmt.Sprintf("after block %d", b.Height))
 }
+
+func TestProbeVersions(t *testing.T) {
+	if os.Getenv("VERIF_PROBE") == "" {
+		t.Skip()
+	}
+	run := ev.Start("PROBE")
+	s := NewSim(t, 7, profRelay())
+	s.BuildWorld()
+	s.Run(300)
+	rm := NewRelayMon(run, "x", "C17")
+	for _, c := range s.Cons {
+		for _, p := range s.projectsOf(c) {
+			vs := rm.projectVersions(s, p)
+			fmt.Println("project", p, "versions", vs)
+			for _, vb := range vs {
+				pj, err := s.TS.Keepers.Projects.GetProjectForBlock(s.TS.Ctx, p, vb)
+				fmt.Println("   ", vb, pj.Snapshot, pj.UsedCu, err)
+			}
+		}
+	}
+	fmt.Println("height", s.TS.Ctx.BlockHeight())
+}
